@@ -127,3 +127,21 @@ package federation
 //@   call append#4 assert arg0 == merged && (merged == nil || fresh(merged))
 //@   call append#5 assert arg0 == merged && (merged == nil || fresh(merged))
 //@   loop 4 invariant merged == nil || fresh(merged)
+
+// the same for the other list merges: the result list is the function's own
+//@ func mergeInputFields
+//@   call append#4 assert arg0 == merged && (merged == nil || fresh(merged))
+//@   call append#5 assert arg0 == merged && (merged == nil || fresh(merged))
+//@   loop 4 invariant merged == nil || fresh(merged)
+//@ func mergeFields
+//@   call append#4 assert arg0 == merged && (merged == nil || fresh(merged))
+//@   call append#5 assert arg0 == merged && (merged == nil || fresh(merged))
+//@   loop 4 invariant merged == nil || fresh(merged)
+//@ func mergePossibleTypes
+//@   call append#4 assert arg0 == merged && (merged == nil || fresh(merged))
+//@   call append#5 assert arg0 == merged && (merged == nil || fresh(merged))
+//@   loop 4 invariant merged == nil || fresh(merged)
+//@ func mergeSchemas
+//@   call append#4 assert arg0 == merged && (merged == nil || fresh(merged))
+//@   call append#5 assert arg0 == merged && (merged == nil || fresh(merged))
+//@   loop 4 invariant merged == nil || fresh(merged)
